@@ -1942,7 +1942,9 @@ func (interp *Interpreter) cfg(root *node, sc *scope, importPath, pkgName string
 					n.typ = sym.typ
 					n.sym = sym
 					n.recv = sym.recv
-					n.rval = sym.rval
+					if sym.kind == constSym {
+						n.rval = sym.rval
+					}
 				} else {
 					err = n.cfgErrorf("undefined selector: %s.%s", pkg, name)
 				}
